@@ -12,6 +12,7 @@ import (
 	"time"
 
 	tls "github.com/refraction-networking/utls"
+	"github.com/refraction-networking/utls/zz_verif/refsrv"
 	"github.com/refraction-networking/utls/zz_verif/simnet"
 	"github.com/refraction-networking/utls/zz_verif/simrt"
 )
@@ -23,7 +24,7 @@ func init() {
 		Run:  runC26,
 		Race: true,
 		Quick: 2400, Thor: 150000, QuickWallS: 45,
-		Rule: "a world = one UConn shared by 1-3 Handshake/HandshakeContext callers (each context may be cancelled at a drawn scheduler step, before or after its call returned), a reader, a writer, optionally a closer (Close/CloseWrite at a drawn step) and optionally a transport fault; every mutex acquisition, atomic operation and transport operation is a scheduling point; non-trivial = >=2 client tasks overlapped (one was granted between another's invoke and return); distinct = (task set, parrot, peer, fault kind, schedule hash)",
+		Rule: "a world = one UConn shared by 1-3 Handshake/HandshakeContext callers (each context may be cancelled at a drawn scheduler step, before or after its call returned), a reader, a writer, optionally a closer (Close/CloseWrite at a drawn step) and optionally a transport fault; a quarter of the TLS 1.3 worlds use the reference server, which sends KeyUpdate(update_requested) between its echo writes; every mutex acquisition, atomic operation and transport operation is a scheduling point; non-trivial = >=2 client tasks overlapped (one was granted between another's invoke and return); distinct = (task set, parrot, peer, fault kind, schedule hash)",
 		Assumptions: []string{
 			"the race detector sees only program synchronisation because scheduler hand-off uses a no-op-Locker sync.Cond and //go:norace state (DESIGN 2.7); races that need true parallelism inside one library call are outside the simulator",
 			"'every call returns within the I/O deadline' is checked against the 20 s connection deadline the scenario sets plus the library's own 5 s close_notify allowance",
@@ -147,7 +148,20 @@ func runC26(c *Ctx) {
 		u.SetDeadline(time.Now().Add(connDeadline))
 	}
 
-	o := &ConnOutcome{Spec: &ConnSpec{ID: idi.ID, Peer: peer, SCfg: scfg, StdCfg: stdcfg, Deadline: 60 * time.Second, ServerStall: serverStall}, Link: l}
+	// a quarter of the TLS 1.3 worlds talk to the reference server, which sends KeyUpdate messages
+	// (update_requested) between its echo writes: the reader then answers and switches the sending key
+	// while the writer task is writing
+	var rcfg *refsrv.Config
+	kuEvery := 0
+	if !tls12 && ch.Bool(25, "key-updates") {
+		peer = PeerRef
+		rcfg = refCfg("ecdsa")
+		kuEvery = 1 + ch.Pick(2, "ku-every")
+	}
+	o := &ConnOutcome{Spec: &ConnSpec{ID: idi.ID, Peer: peer, SCfg: scfg, StdCfg: stdcfg, RefCfg: rcfg, Deadline: 60 * time.Second, ServerStall: serverStall}, Link: l}
+	if kuEvery > 0 {
+		o.Spec.ServerKeyUpdate = func(n int) (bool, bool) { return n%kuEvery == 0, true }
+	}
 	srv := w.Go("server", func() { defaultServer(o, l.B) })
 
 	var phase1 []*simrt.Task
@@ -299,6 +313,9 @@ func runC26(c *Ctx) {
 	c.R.Class = fmt.Sprintf("%s/%s/tls12=%v %v fault=%d ly=%v ay=%v nodl=%v stall=%v", idi.Name, peerName(peer), tls12, names, fault, lockYield, atomYield, noDeadline, serverStall)
 	if serverStall > 0 {
 		c.Fault("server-stall", 1)
+	}
+	if o.KeyUpdates > 0 {
+		c.Fault("key-update", o.KeyUpdates)
 	}
 	c.R.NonTrivial = len(phase1) >= 2 && w.Overlaps > 0
 	if c.R.Run%400 == 0 {
